@@ -143,6 +143,6 @@ theorem sprint_safe_text_independent (pub : Nat → Prop) (env1 env2 : Env) (he 
 
 /-! Non-vacuity -/
 example : Pre newPP := pre_newPP
-example : isSafeValue (.leaf 0 .str "main.SafeStr".toUTF8.toList none true false) = true := rfl
+example : isSafeValue (.leaf 0 .str ([0x6D, 0x61, 0x69, 0x6E, 0x2E, 0x53, 0x61, 0x66, 0x65, 0x53, 0x74, 0x72] /- "main.SafeStr" -/ : List UInt8) none true false) = true := rfl
 
 end Redact
